@@ -423,6 +423,21 @@ class Parser:
         if tok.kind == 'p' and tok.text == ';':
             self.next(); return ('empty',)
         if tok.kind == 'id':
+            if tok.text in ('struct', 'class') and self.peek(1).kind == 'id' and self.at('{', 2) and hasattr(self, 'parse_class'):
+                # local class definition: hoisted into the class table (its name must be unique in the library)
+                self.parse_class()
+                DROPPED.add('block scope of local struct definitions (hoisted to file scope)')
+                return ('empty',)
+            if tok.text == 'static_assert':
+                self.next(); self.expect('(')
+                depth = 1
+                while depth:
+                    t = self.next()
+                    if t.text == '(': depth += 1
+                    elif t.text == ')': depth -= 1
+                self.expect(';', 'static_assert end')
+                DROPPED.add('static_assert')
+                return ('empty',)
             if tok.text == 'if':
                 self.next(); self.expect('(')
                 c = self.parse_expr(); self.expect(')')
@@ -735,6 +750,11 @@ class TopParser(Parser):
             return
         # data member
         init = None
+        if self.accept('['):
+            # T name[N] -> the same model as std::array<T, N>
+            dim = self.parse_assign(); self.expect(']')
+            if dim[0] != 'num': self.err('array member with a non-literal bound', tok)
+            ty = Type('std::array', [ty, int(dim[1], 0)])
         if self.accept('{'):
             args = []
             while not self.at('}'):
